@@ -126,12 +126,20 @@ def run(check, repo: Repo) -> None:
         raise AnalysisError("Ptychography.save: _dataset_metadata dict not found")
     written = {k.value for k in md.keys if isinstance(k, ast.Constant)}
     read = set()
+    # the reader's handle(s) on the saved dict, by role: `<local> = <obj>._dataset_metadata` (or the attribute itself)
+    mdl = {n.targets[0].id for n in ast.walk(ff) if isinstance(n, ast.Assign) and isinstance(n.targets[0], ast.Name)
+           and isinstance(n.value, ast.Attribute) and n.value.attr == "_dataset_metadata"}
+    if not mdl:
+        raise AnalysisError("Ptychography.from_file: no local bound to `._dataset_metadata`")
+
+    def is_md(e):
+        return (isinstance(e, ast.Name) and e.id in mdl) or (isinstance(e, ast.Attribute) and e.attr == "_dataset_metadata")
     for n in ast.walk(ff):
-        if isinstance(n, ast.Call) and (call_name(n) or "") == "metadata.get" and n.args and isinstance(n.args[0], ast.Constant):
+        if isinstance(n, ast.Call) and isinstance(n.func, ast.Attribute) and n.func.attr == "get" and is_md(n.func.value) and n.args and isinstance(n.args[0], ast.Constant):
             read.add(n.args[0].value)
-        if isinstance(n, ast.Subscript) and dotted(n.value) == "metadata" and isinstance(n.slice, ast.Constant):
+        if isinstance(n, ast.Subscript) and is_md(n.value) and isinstance(n.slice, ast.Constant):
             read.add(n.slice.value)
-        if isinstance(n, ast.Compare) and isinstance(n.left, ast.Constant) and isinstance(n.ops[0], ast.In) and dotted(n.comparators[0]) == "metadata":
+        if isinstance(n, ast.Compare) and isinstance(n.left, ast.Constant) and isinstance(n.ops[0], ast.In) and is_md(n.comparators[0]):
             read.add(n.left.value)
     check.floor("dataset metadata keys", len(written), 4)
     check.decide(written == read, "C05-R3", "dataset metadata: keys written by save = keys read by from_file", f"{sorted(written)}", tmod.line(md),
@@ -155,7 +163,9 @@ def run(check, repo: Repo) -> None:
                  tmod.line(fcfg.nodes[restores[0]].stmt) if restores else tmod.line(ff),
                  fail_detail=f"_set_initial_scan_positions_px at line(s) {[fcfg.nodes[r].lineno for r in late]} runs after the learned positions were restored and "
                              f"overwrites them with the nominal raster")
-    dres = [unparse(n.stmt.value) for n in fcfg.nodes if n.kind == "stmt" and isinstance(n.stmt, ast.Assign) and unparse(n.stmt.targets[0]) == "dset.descan_shifts.data"]
+    dres = [("metadata[" + repr(n.stmt.value.slice.value) + "]") if isinstance(n.stmt.value, ast.Subscript) and is_md(n.stmt.value.value) and isinstance(n.stmt.value.slice, ast.Constant)
+            else unparse(n.stmt.value)
+            for n in fcfg.nodes if n.kind == "stmt" and isinstance(n.stmt, ast.Assign) and unparse(n.stmt.targets[0]) == "dset.descan_shifts.data"]
     check.decide(dres == ["metadata['learned_descan_shifts']"], "C05-R3", "from_file(dset=…): learned descan shifts are restored", str(dres), tmod.line(ff), fail_detail=str(dres))
 
     # ---- R4 persisted state completeness -----------------------------------------------------------------------------------
@@ -174,7 +184,9 @@ def run(check, repo: Repo) -> None:
         check.advisory("C05-R5", "Ptychography.save: device/metadata restoration is not in try/finally",
                        "a failing save leaves the object on CPU with the temporary _dataset_metadata attribute (not a clause of C05 as stated)", tmod.line(save))
     st = unparse(save)
-    ok = "current_device = self.device" in st and "self.to('cpu')" in st and "self.to(current_device)" in st and st.index("self.to('cpu')") < st.index("super().save(") < st.index("self.to(current_device)")
+    devs = [n.targets[0].id for n in ast.walk(save) if isinstance(n, ast.Assign) and isinstance(n.targets[0], ast.Name) and unparse(n.value) == "self.device"]
+    back = f"self.to({devs[0]})" if devs else "self.to(<saved device>)"
+    ok = bool(devs) and "self.to('cpu')" in st and back in st and st.index("self.to('cpu')") < st.index("super().save(") < st.index(back)
     check.decide(ok, "C05-R4", "save: the object is moved to CPU for serialisation and back to its device afterwards", "", tmod.line(save),
                  fail_detail="save does not bracket super().save with to('cpu') … to(current_device)")
 
@@ -218,8 +230,17 @@ def _reaches_reconnect(repo: Repo, mod, cls, to: ast.FunctionDef, depth: int):
         # must not be guarded by anything but `device is not None`
         cfg = CFG(to)
         nodes = cfg.node_containing(direct[0])
-        guards = [unparse(t) for t, p in cfg.guards_of(nodes[0])] if nodes else []
-        if all(g in ("device is not None",) for g in guards):
+        gs = cfg.guards_of(nodes[0]) if nodes else []
+        guards = [unparse(t) for t, p in gs]
+
+        def device_guard(t, pol):
+            # `<local> is not None` where the local is read from the call's device argument
+            if not (pol and isinstance(t, ast.Compare) and len(t.ops) == 1 and isinstance(t.ops[0], ast.IsNot) and is_const(t.comparators[0], None)
+                    and isinstance(t.left, ast.Name)):
+                return False
+            dd = [d for d in definitions(to, t.left.id) if isinstance(d, ast.AST)]
+            return bool(dd) and all("kwargs.get('device'" in unparse(d) for d in dd)
+        if all(device_guard(t, pol) for t, pol in gs):
             return True, f"{cls.name}.to calls it directly" + (f" under {guards}" if guards else "")
         return False, f"{cls.name}.to calls it only under {guards}"
     sup = [c for c in calls_in(to) if isinstance(c.func, ast.Attribute) and c.func.attr == "to" and isinstance(c.func.value, ast.Call) and call_name(c.func.value) == "super"]
